@@ -89,9 +89,7 @@ example : (decTransaction ⟨5, Acc.exLegacyTx ++ [7,7]⟩).res = .ok (⟨⟨5, 
 example : (decTransaction ⟨5, Acc.exSegwitTx ++ [7,7]⟩).res = .ok (⟨⟨5, Acc.exSegwitTx⟩, some 53⟩, ⟨71, [7,7]⟩) := by decide
 example : TxV.preimageBytes ⟨⟨5, Acc.exSegwitTx⟩, some 53⟩ = .ok Acc.exStrippedTx := by decide
 example : TxV.version ⟨⟨5, Acc.exSegwitTx⟩, some 53⟩ = .ok 2 ∧ TxV.locktime ⟨⟨5, Acc.exSegwitTx⟩, some 53⟩ = .ok 9 := by decide
-example : ((decHeader ⟨3, List.replicate 81 0x11⟩).res.isOk) = true := by decide
-
-/-! ## L1 corollaries (generated by tools/genlift.py) -/
+example : ((decHeader ⟨3, List.replicate 81 0x11⟩).res.isOk) = true := by decide/-! ## L1 corollaries (generated by tools/genlift.py) -/
 section L1
 open BS.Ref BS.Lift
 
